@@ -371,8 +371,19 @@ func runC20(r *Run) {
 	behaviours := []string{"reply", "partial", "close", "silent", "refuse"}
 	nf := r.N(60, 3000)
 	slowBudget := r.N(2, 60) // cases that can only end by the 5 s deadline
+	// combinations every run starts with (per KDC: tcp behaviour, udp behaviour), then random ones
+	scripted := [][][2]string{
+		{{"refuse", "refuse"}, {"silent", "silent"}}, // a refused dial and nobody answering: 503 after the deadline, not a hang
+		{{"refuse", "refuse"}, {"reply", "refuse"}},
+		{{"close", "refuse"}, {"reply", "silent"}},
+		{{"partial", "refuse"}, {"refuse", "reply"}},
+		{{"refuse", "refuse"}},
+	}
 	for i := 0; i < nf; i++ {
 		nk := 1 + rng.Intn(3)
+		if i < len(scripted) {
+			nk = len(scripted[i])
+		}
 		var ks []*fakeKDC
 		anySilentOnly := true
 		for k := 0; k < nk; k++ {
@@ -389,6 +400,9 @@ func runC20(r *Run) {
 				return b
 			}
 			t, u := mk(), mk()
+			if i < len(scripted) {
+				t.kind, u.kind = scripted[i][k][0], scripted[i][k][1]
+			}
 			ks = append(ks, startFakeKDC(t, u))
 		}
 		hasReply := false
@@ -432,6 +446,12 @@ func runC20(r *Run) {
 		realm := []string{"", "REALM.A", "corp.Test", "UNKNOWN.REALM"}[rng.Intn(4)]
 		if rng.Intn(2) == 0 {
 			realm = ""
+		}
+		if i < len(scripted) { // the scripted combinations are for the default realm's KDCs and a regular message
+			realm = []string{"", "REALM.A"}[i%2]
+			if len(data) < 4 {
+				data = []byte{0, 0, 0, 3, 1, 2, 3}
+			}
 		}
 		body := kdcProxyMessage(data, realm, rng.Intn(4)-1)
 		if len(body) > 131072 {
